@@ -362,6 +362,10 @@ func genScopeProgram(r *core.Rand, keep bool) string {
 	g := &scopeGen{r: r, keep: keep}
 	g.strict = r.Chance(1, 4)
 	g.useWith = r.Chance(1, 2)
+	module := r.Chance(1, 6)
+	if module {
+		g.strict, g.useWith = true, false // module code is strict
+	}
 	if g.strict {
 		g.w("\"use strict\";")
 	}
@@ -371,6 +375,29 @@ func genScopeProgram(r *core.Rand, keep bool) string {
 	n := 2 + r.Intn(3)
 	for i := 0; i < n; i++ {
 		g.child(1 + r.Intn(4))
+	}
+	if module {
+		// the module's interface: exported functions (called by the execution monitor after evaluation); the name of a
+		// default-exported function declaration is a binding nobody uses
+		k := 1 + r.Intn(2)
+		for i := 0; i < k; i++ {
+			head := ""
+			switch {
+			case i == 0 && r.Chance(2, 3):
+				head = "export default function " + r.Pick([]string{fmt.Sprintf("handler%d", g.nextSite()), fmt.Sprintf("handler%d", g.nextSite()), ""})
+			case i == 0:
+				head = "export default async function " + fmt.Sprintf("handler%d", g.nextSite())
+			default:
+				head = "export function " + fmt.Sprintf("exp%d", g.nextSite())
+			}
+			g.push(true)
+			ps := g.params()
+			g.w(head + "(" + ps + "){")
+			g.body(1 + r.Intn(2))
+			g.w("}")
+			g.pop()
+			g.w(";")
+		}
 	}
 	g.w("for(const q of Q)q();")
 	return g.sb.String()
@@ -438,7 +465,20 @@ func c02Static(in *jsAnalysis, out string, c jsConfig) string {
 	if x, ok := subset(oa.Free, in.Free); !ok && x != "undefined" && x != "NaN" && x != "Infinity" {
 		return fmt.Sprintf("output has a free identifier %q that the input does not have (a renamed local leaked, or a global was renamed)", x)
 	}
-	if !sameSet(append(append([]string{}, oa.TopVar...), oa.TopLexical...), append(append([]string{}, in.TopVar...), in.TopLexical...)) {
+	inTop := append(append([]string{}, in.TopVar...), in.TopLexical...)
+	outTop := append(append([]string{}, oa.TopVar...), oa.TopLexical...)
+	if in.DefaultLocal != "" && !contains(outTop, in.DefaultLocal) {
+		// `export default function NAME(){}`: NAME is only a local binding; dropping it when nothing refers to it is legal
+		// (a remaining reference would show up as a new free identifier above)
+		var kept []string
+		for _, n := range inTop {
+			if n != in.DefaultLocal {
+				kept = append(kept, n)
+			}
+		}
+		inTop = kept
+	}
+	if !sameSet(outTop, inTop) {
 		return fmt.Sprintf("top-level declarations changed: %v -> %v", append(in.TopVar, in.TopLexical...), append(oa.TopVar, oa.TopLexical...))
 	}
 	if strings.Join(in.Imexp, ",") != strings.Join(oa.Imexp, ",") {
@@ -528,8 +568,9 @@ func C02(run *core.Run) {
 			c.KeepVarNames = true
 		}
 		src := genScopeProgram(r, c.KeepVarNames)
-		if i%7 == 3 {
-			c.Version = []int{2015, 2019, 2020, 2022}[i%4]
+		if i%3 == 1 {
+			// target editions change what the renamer may assume (e.g. below 2019 an unused catch binding stays in the text)
+			c.Version = []int{2015, 2018, 2019, 2016, 2020, 2017, 2022, 2021}[(i/3)%8]
 		}
 		if i < 2 {
 			run.Sample(map[string]string{"source": "scope-tree", "config": c.String(), "input": core.Trunc(src, 1500)})
@@ -554,7 +595,7 @@ func C02(run *core.Run) {
 	for i := 0; i < m; i++ {
 		r := run.CaseRand("closed", i, m*3/5)
 		src, _ := genJSProgram(r)
-		jobs = append(jobs, job{fmt.Sprintf("gen#%d", i), src, jsConfig{KeepVarNames: i%3 == 0}})
+		jobs = append(jobs, job{fmt.Sprintf("gen#%d", i), src, jsConfig{KeepVarNames: i%3 == 0, Version: []int{0, 0, 2018, 0, 2015, 0, 2017, 2020}[i%8]}})
 	}
 	core.ParallelFor(len(jobs), 32, func(i int) {
 		c02Case(run, st, jobs[i].label, jobs[i].src, jobs[i].c)
